@@ -76,10 +76,8 @@ def sortNatPairs (l : List (Nat × Int)) : List (Nat × Int) :=
 /-- resolve jittered deadlines from the observation, then render the status tail -/
 def finishOp (s : St) : St × String :=
   let s := s.settle
-  let tmo := match s.byTimeout.head?.bind s.query? with
-    | some q => match q.deadline with
-      | .at ms => s!"to={ms - s.now}"
-      | _ => "to=?"
+  let tmo := match s.timeoutHint none with
+    | some r => s!"to={r}"
     | none => "to=-"
   let active := s.all.length
   let conns := (s.sortedServers.map (·.conns)).flatten.filterMap s.conn?
@@ -96,9 +94,10 @@ def finishOp (s : St) : St × String :=
 def render (s : St) (withTail : Bool) : St × String :=
   let (s, tail) := if withTail then finishOp s else (s, "")
   let evs := s.ev.reverse ++ (s.modelFaults.map fun f => "MODEL-FAULT:" ++ f) ++
+             (s.obsFaults.map fun f => "MODEL-OBS:" ++ f) ++
              (if s.outOfFuel then ["MODEL-OUT-OF-FUEL"] else [])
   let body := " | ".intercalate (evs ++ (if withTail then [tail] else []))
-  ({ s with ev := [], modelFaults := [], outOfFuel := false }, if body == "" then "-" else body)
+  ({ s with ev := [], modelFaults := [], obsFaults := [], outOfFuel := false }, if body == "" then "-" else body)
 
 def rcodeOfKind (k : String) : Nat :=
   if k == "nxdomain" then 3 else if k == "servfail" then 2 else if k == "refused" then 5
@@ -288,16 +287,10 @@ def step (s : St) (line : List String) : St × String :=
     else if op == "selfip" then
       render ({ s with selfVariant := kvNat toks "v" 1 }.emit "ok") true
     else if op == "timeoutq" then
-      let s' := (finishOp s).1
-      let rem : Option Nat := (s'.byTimeout.head?.bind s'.query?).bind fun q =>
-        match q.deadline with
-        | .at ms => some (ms - s'.now)
-        | _ => none
-      let out := match kv toks "maxtv", rem with
-        | none, none => "timeout=-"
-        | none, some r => s!"timeout={r}"
-        | some m, none => s!"timeout={m}"
-        | some m, some r => s!"timeout={min (m.toNat?.getD 0) r}"
+      let s' := s.settle
+      let out := match s'.timeoutHint ((kv toks "maxtv").bind String.toNat?) with
+        | some r => s!"timeout={r}"
+        | none => "timeout=-"
       render (s.emit out) true
     else if op == "pendingwrite" then
       if !s.notifyPending then render s true else
